@@ -14,6 +14,10 @@ func c10(c *Check) {
 	c.Rule("C10/guards", "frozen table: parent looked up by (parent hash, height-1) and required; parent hash equality; timestamp not beyond block time + allowance and strictly after the parent; EIP-1559 gas-limit and base-fee rules; difficulty equals the calculated one unless chain id is Rinkeby; extra-data size and proof-of-work (light mode, fulldag=false) unless Rinkeby; seal: positive difficulty, mix digest, result below target; header indexed and root recorded; consensus state = header time/height/root; head := header", 40)
 	n := c.Frozen("C10")
 	c.Extra["frozen_entries"] = n
+	c.Rule("C10/trusted-header-indexed", "frozen table (shared with C18): the header a client is created or upgraded with is indexed like an accepted one (header index by hash, root index by height with root and hash in that order), so its children and its pruning find it", 4)
+	c.FrozenFiltered("C18", "C10/trusted-header-indexed", func(fn string) bool {
+		return strings.Contains(fn, "light-clients/eth/types") && (strings.HasSuffix(fn, "ClientState.Initialize") || strings.HasSuffix(fn, "ClientState.UpgradeState"))
+	})
 	c.Rule("C10/nothing-before-validity", "ETH CheckHeaderAndUpdateState prunes, indexes and re-organises only after checkValidity accepted the header: the parent of a fork header is looked up in the store as it was, not after the expired entries (possibly that very parent) were pruned", 2)
 	nothingBeforeValidity(c, "C10/nothing-before-validity", "x/xibc/clients/light-clients/eth/types.ClientState.CheckHeaderAndUpdateState")
 	c.Rule("C10/rule-constants-immutable", "the package-level big.Int constants of the header rules (difficulty bounds, base-fee parameters) are never the receiver of a mutating big.Int method, directly or through a value that may alias them: the rule applied to one header does not depend on the headers verified before it in this process", 20)
